@@ -382,6 +382,57 @@ def r4(repo, res):
                        found=ast.unparse(g), key=f"global-stmt:{mname}:{q}")
 
 
+def r4_class_state(repo, res):
+    """A mutable container bound in a class body is one object shared by every instance of the class for the life of the process:
+    it must not be written through `self.` / the class from a method, unless the constructor gives every instance its own."""
+    n_cls = 0
+    MUT = ("add", "update", "clear", "pop", "popitem", "remove", "discard", "append", "extend", "insert", "setdefault", "sort")
+    for mname, m in repo.modules.items():
+        for cq, c in m.classes.items():
+            n_cls += 1
+            shared = {}
+            for st in c.body:
+                if isinstance(st, (ast.Assign, ast.AnnAssign)) and getattr(st, "value", None) is not None:
+                    t = st.targets[0] if isinstance(st, ast.Assign) else st.target
+                    v = st.value
+                    if isinstance(t, ast.Name) and (isinstance(v, (ast.Dict, ast.List, ast.Set, ast.ListComp, ast.DictComp, ast.SetComp))
+                                                    or (isinstance(v, ast.Call) and call_name(v).split(".")[-1] in ("dict", "list", "set", "defaultdict", "Counter", "OrderedDict"))):
+                        shared[t.id] = st
+            if not shared:
+                continue
+            methods = [x for x in c.body if isinstance(x, ast.FunctionDef)]
+            own = set()   # rebound per instance in the constructor
+            for f in methods:
+                if f.name == "__init__":
+                    for n in walk_local(f):
+                        if isinstance(n, (ast.Assign, ast.AnnAssign)):
+                            for t in (n.targets if isinstance(n, ast.Assign) else [n.target]):
+                                if isinstance(t, ast.Attribute) and isinstance(t.value, ast.Name) and t.value.id == f.args.args[0].arg and t.attr in shared:
+                                    own.add(t.attr)
+            for f in methods:
+                me = f.args.args[0].arg if f.args.args else None
+                for n in walk_local(f):
+                    base = None
+                    if isinstance(n, (ast.Assign, ast.AugAssign, ast.Delete)):
+                        tg = n.targets if isinstance(n, (ast.Assign, ast.Delete)) else [n.target]
+                        for t in tg:
+                            b = t
+                            while isinstance(b, ast.Subscript):
+                                b = b.value
+                            if b is not t or isinstance(n, ast.AugAssign):
+                                base = b
+                    elif isinstance(n, ast.Call) and isinstance(n.func, ast.Attribute) and n.func.attr in MUT:
+                        base = n.func.value
+                        while isinstance(base, ast.Subscript):
+                            base = base.value
+                    if isinstance(base, ast.Attribute) and base.attr in shared and base.attr not in own and isinstance(base.value, ast.Name) \
+                            and base.value.id in (me, "cls", c.name):
+                        res.ob("C14.R4", n, n, False, expected="no container shared by all instances of a class is written from a method (results must not depend on earlier samples)",
+                               found=f"`{c.name}.{base.attr}` is bound once in the class body of aldy/{mname}.py and written in {f.name}",
+                               clause="results do not depend on what was genotyped earlier in the same process", key=f"class-state:{mname}:{c.name}.{base.attr}")
+    res.ob("C14.R4", "common::JsonDict", "scan for class-level containers written from methods", True, expected="completed", found=f"{n_cls} classes scanned", key="class-scan")
+
+
 def _is_local(f, name):
     a = f.args
     if name in {p.arg for p in a.posonlyargs + a.args + a.kwonlyargs}:
@@ -656,6 +707,7 @@ def run(repo, res):
     r2(repo, res)
     r3(repo, res)
     r4(repo, res)
+    r4_class_state(repo, res)
     r5(repo, res)
 
 
